@@ -1,0 +1,104 @@
+//go:build verif
+
+package base
+
+import (
+	"fmt"
+	"sort"
+	"strings"
+)
+
+func verifRenderT(t *T, depth int) string {
+	if t == nil {
+		return "<nil>"
+	}
+	if depth > 6 {
+		return "<deep>"
+	}
+	var sb strings.Builder
+	fmt.Fprintf(&sb, "{t=%d oc=%q", t.tType, t.objectClass)
+	switch v := t.val.(type) {
+	case *T:
+		sb.WriteString(" val=" + verifRenderT(v, depth+1))
+	case string:
+		fmt.Fprintf(&sb, " val=%q", v)
+	default:
+		fmt.Fprintf(&sb, " val=%v", v)
+	}
+	fmt.Fprintf(&sb, " key=%q frame=%q m=%q args=%q def=%v bi=%v ast=%v cond=%v destr=%v ro=%v blk=%v prot=%v st=%v cap=%v",
+		t.key, t.frame, t.method, t.defineArgs, t.hasDefault, t.isBuiltin, t.IsBuiltinAsterisk,
+		t.IsConditionalReturn, t.IsDestructive, t.isReadOnly, t.IsBlockGiven, t.IsProtected, t.IsStatic, t.IsCaptureOwner)
+	if len(t.variants) > 0 {
+		sb.WriteString(" variants=[")
+		for i := range t.variants {
+			sb.WriteString(verifRenderT(&t.variants[i], depth+1))
+		}
+		sb.WriteString("]")
+	}
+	if len(t.blockParamaters) > 0 {
+		sb.WriteString(" bp=[")
+		for i := range t.blockParamaters {
+			sb.WriteString(verifRenderT(&t.blockParamaters[i], depth+1))
+		}
+		sb.WriteString("]")
+	}
+	if len(t.Overloads) > 0 {
+		sb.WriteString(" ov=[")
+		for i := range t.Overloads {
+			sb.WriteString(verifRenderT(&t.Overloads[i], depth+1))
+		}
+		sb.WriteString("]")
+	}
+	sb.WriteString("}")
+	return sb.String()
+}
+
+// VerifDumpTable renders every TFrame entry as key -> canonical value string.
+func VerifDumpTable() map[string]string {
+	out := make(map[string]string, len(TFrame))
+	for k, v := range TFrame {
+		key := fmt.Sprintf("%q|%q|%q|%q|%v|%v",
+			k.frame, k.targetClass, k.targetMethod, k.targetVariable, k.isPrivate, k.isStatic)
+		out[key] = verifRenderT(v, 0)
+	}
+	return out
+}
+
+// VerifSortedKeys returns the keys of a dump in sorted order.
+func VerifSortedKeys(m map[string]string) []string {
+	keys := make([]string, 0, len(m))
+	for k := range m {
+		keys = append(keys, k)
+	}
+	sort.Strings(keys)
+	return keys
+}
+
+// VerifReset brings the package-level state back to what init() leaves behind
+// before any configuration is loaded.
+func VerifReset() {
+	TFrame = make(map[FrameKey]*T)
+	ArgumentSnapShot = make(map[FrameKey]T)
+	ClassInheritanceMap = make(map[ClassNode][]ClassNode)
+	DefinedClassTable = make(map[DefinedClass]bool)
+	BuiltinClasses = nil
+	TSignatureArticles = []TSignatureArticle{}
+	TSignatures = make(map[string]Sig)
+	TSignatureDocument = make(map[string]string)
+	MethodCallPoint = make(map[string][]CallPoint)
+	MethodCalleePoint = make(map[string][]CalleePoint)
+	SpecialCodeComments = []SpecialCodeComment{}
+	GlobT = T{}
+	defaultGenId = genId{prefix: "var", count: 0}
+
+	// same bootstrap as defined_class.go:init
+	class := "Object"
+	classNode := ClassNode{Frame: "Builtin", Class: class}
+	objectClassNode := ClassNode{Frame: "Builtin", Class: ""}
+	ClassInheritanceMap[classNode] = append(ClassInheritanceMap[classNode], objectClassNode)
+	returnT := MakeObject(class)
+	args := "*" + GenId()
+	methodT := MakeMethod("Builtin", "new", *returnT, []string{args})
+	SetClassMethodT("", class, methodT, false, "unknown", 0)
+	DefinedClassTable[DefinedClass{"Builtin", class}] = true
+}
